@@ -3,6 +3,7 @@
 //! vectors Kani's concrete playback printed, in call order, from the file named
 //! by VERIF_REPLAY_FILE (one line of hex per `any()` call).
 #![allow(dead_code, missing_docs, unused_macros, unused_imports)]
+#[allow(rust_2018_idioms, unused_extern_crates)]
 extern crate std;
 use std::cell::RefCell;
 use std::vec::Vec;
